@@ -268,7 +268,7 @@ def check_case(case):
     from html5lib.serializer import HTMLSerializer, SerializeError
     text, container, scripting, walker, opts = case["text"], case.get("container"), bool(case.get("scripting")), case.get("walker", "etree"), dict(case.get("opts") or {})
     try:
-        tree, p = h5.parse(text, builder=walker, container=container, scripting=scripting, full_tree=True)
+        tree, p = h5.parse(text, builder=walker, container=container, scripting=scripting, full_tree=True, namespace=bool(case.get("namespace", True)))
         stream = list(h5.walk(tree, walker))
     except Exception as e:
         return Verdict("excluded", finding="parse/walk raised %s (C03/C11's subject)" % type(e).__name__)
@@ -400,6 +400,8 @@ def run_shard(desc, seed, tier):
         (profile, text), container, scripting, walker, od, head = x
         o = decode_opts(od)
         case = {"text": head + text, "container": container, "scripting": scripting, "walker": "etree" if o.get("strip_whitespace") else walker, "opts": o}
+        if od[-1] % 5 == 0:
+            case["namespace"] = False
         acc.add(case, check_case(case))
     drive(strat, fn, desc["n"], seed)
     return acc
